@@ -225,11 +225,15 @@ def main():
             except Exception as e:  # noqa: BLE001
                 return f"{kind} crc=n recs=- end={classify(e)}"
             return run_batch(b, want_crc)[0]
-        if entry in ("cyM", "pyM"):
+        if entry in ("cyM", "pyM", "cyN", "pyN"):
+            # M: `while records.has_next(): records.next_batch()` (the fetcher's way);
+            # N: `next_batch()` until it returns None - no has_next() guard, so next_batch()'s own
+            #    end-of-buffer tests are what is exercised
+            guarded = entry[2] == "M"
             outs = []
             try:
                 mr = Memory(buf)
-                while mr.has_next():
+                while (mr.has_next() if guarded else True):
                     b = mr.next_batch()
                     if b is None:
                         break
